@@ -339,6 +339,17 @@ def _memo_pattern(f):
             keyvar = node.test.left.id
             break
     if test_field is None:
+        # if k not in self.M: ...; self.M[k] = v   (then `return self.M[k]`)
+        for node in ast.walk(f.node):
+            if isinstance(node, ast.If) and isinstance(node.test, ast.Compare) and len(node.test.ops) == 1 \
+                    and isinstance(node.test.ops[0], ast.NotIn) and self_attr(node.test.comparators[0]) \
+                    and isinstance(node.test.left, ast.Name) \
+                    and any(isinstance(b, ast.Assign) and isinstance(b.targets[0], ast.Subscript)
+                            and self_attr(b.targets[0].value) == self_attr(node.test.comparators[0]) for b in node.body):
+                test_field = self_attr(node.test.comparators[0])
+                keyvar = node.test.left.id
+                break
+    if test_field is None:
         # v = self.M.get(k); if v is not None: return v
         for node in ast.walk(f.node):
             if isinstance(node, ast.Assign) and isinstance(node.value, ast.Call) and isinstance(node.value.func, ast.Attribute) \
